@@ -269,7 +269,11 @@ func (m *Machine) formatInt(v Val, minWidth int, zeroPad bool) []Val {
 		t := x
 		if x.S && m.decide(mkCmp("lt", x, mkConst(0, x.W, x.S))) {
 			neg = true
-			t = mkArith("sub", mkConst(0, x.W, x.S), x)
+			if x.Op == "sub" && x.Args[0].IsConst() && x.Args[0].K == 0 {
+				t = x.Args[1] // -(-y) = y: keeps the term the digit cache knows
+			} else {
+				t = mkArith("sub", mkConst(0, x.W, x.S), x)
+			}
 		}
 		md := 0
 		if zeroPad && !neg {
@@ -700,6 +704,13 @@ func init() {
 		return Tuple{v, Iface{}}
 	}
 	stubs["strconv.FormatFloat"] = func(m *Machine, fr *frame, fn *ssa.Function, a []Val) Val {
+		if sf, ok := a[0].(*SymFloat); ok {
+			// whole numbers up to 2^53 print as their integer in the 'f' format with the shortest precision
+			if cInt(m, a[1], "fmt") == 'f' && cInt(m, a[2], "prec") == -1 && cInt(m, a[3], "bits") == 64 && m.sfExact(sf) {
+				return mkStr(m.formatInt(fromTerm(sf.I), 0, false))
+			}
+			a[0] = m.sfConc(sf)
+		}
 		f, ok := a[0].(float64)
 		if !ok {
 			inconclusive("FormatFloat of abstract float")
@@ -870,6 +881,7 @@ func (m *Machine) parseFloatSym(fr *frame, b []Val) Val {
 		}
 	}
 	i := 0
+	neg, hasDot, hasExp := false, false, false
 	is := func(k int, c byte) bool { return m.decide(mkCmp("eq", byteTerm(b[k]), mkConst(int64(c), 8, false))) }
 	isDigit := func(k int) bool {
 		t := byteTerm(b[k])
@@ -878,15 +890,20 @@ func (m *Machine) parseFloatSym(fr *frame, b []Val) Val {
 	if len(b) == 0 {
 		return bad()
 	}
-	if is(0, '+') || is(0, '-') {
+	if is(0, '+') {
 		i = 1
+	} else if is(0, '-') {
+		i, neg = 1, true
 	}
 	nd := 0
+	intFrom := i
 	for i < len(b) && isDigit(i) {
 		i++
 		nd++
 	}
+	intTo := i
 	if i < len(b) && is(i, '.') {
+		hasDot = true
 		i++
 		for i < len(b) && isDigit(i) {
 			i++
@@ -897,6 +914,7 @@ func (m *Machine) parseFloatSym(fr *frame, b []Val) Val {
 		return bad()
 	}
 	if i < len(b) && (is(i, 'e') || is(i, 'E')) {
+		hasExp = true
 		i++
 		if i >= len(b) {
 			return bad()
@@ -914,7 +932,11 @@ func (m *Machine) parseFloatSym(fr *frame, b []Val) Val {
 	if i != len(b) {
 		return bad()
 	}
-	return Tuple{float64(0), Iface{}}
+	if !hasDot && !hasExp && intTo-intFrom <= 18 {
+		// a whole number: the value is the conversion of its integer (symfloat.go)
+		return Tuple{m.sfFromDigits(b[intFrom:intTo], neg), Iface{}}
+	}
+	return Tuple{&SymFloat{NonNeg: !neg}, Iface{}}
 }
 
 // fscanf models fmt.Fscanf for formats made of %d verbs, literal separators and a trailing newline
